@@ -75,6 +75,7 @@ def units(tier):
                     other = "client" if side == "server" else "server"
                     us.append({"name": f"xwin{k}_{name}_o{off}", "shape": {"kind": "win", "seed": name, "side": other, "pre": "opened", "off": off, "k": k, "cut": None}})
         us.append({"name": f"trunc_{name}", "shape": {"kind": "trunc", "seed": name, "side": side, "pre": pre}})
+        us.append({"name": f"trail_{name}", "shape": {"kind": "trail", "seed": name, "side": side, "pre": pre}})
     # prior session histories: two application calls (accepted or refused), then a delivered
     # message of every kind whose id is symbolic
     import itertools
@@ -127,6 +128,10 @@ def body(ctx, shape):
         code = ctx.int("code", 0, 80)
         data = S_.message_for(ctx, shape["recv"], mid, code).pack(S_.po(ctx))
         common.checked_receive(ctx, sess_, side, data)
+        return
+    if kind == "trail":
+        data = common.with_trailing_element(ctx, common.seed_bytes(ctx, shape["seed"]), "x")
+        common.checked_receive(ctx, common.make_session(ctx, side, pre), side, data)
         return
     if kind == "raw":
         data = ctx.bytes("data", shape["n"])
